@@ -163,6 +163,20 @@ def run(ctx):
             pair_ok = any(any('pairs' in ast.unparse(a) and isinstance(a, ast.Compare) and isinstance(a.ops[0], ast.NotIn) and pol and about_op_qubits(a.left)
                               for a, pol in atoms) for r, atoms, loops in rcs)
             ctx.ob('C07.a', key + ':pair-test', pair_ok, '' if pair_ok else 'validator does not reject two-qubit operations on qubit pairs that are not coupled', ci.mod.rel, fn.lineno)
+            # the gateset looks inside sub-circuits (Gateset unrolls CircuitOperations): the pair test must reach the operations inside as well,
+            # unless the validator refuses everything that is not a plain gate operation
+            refuses_nongate = any(any(isinstance(a, ast.Call) and call_name(a) == 'isinstance' and 'GateOperation' in ast.unparse(a) and not pol for a, pol in atoms) for r, atoms, loops in rcs)
+            recurses = False
+            for i_ in ast.walk(fn):
+                if isinstance(i_, ast.If) and any(isinstance(c, ast.Call) and call_name(c) == 'isinstance' and 'CircuitOperation' in ast.unparse(c) for c in ast.walk(i_.test)):
+                    for c in ast.walk(ast.Module(body=i_.body, type_ignores=[])):
+                        if isinstance(c, ast.Call) and isinstance(c.func, ast.Attribute) and is_self_attr(c.func) and c.func.attr in (mn, 'validate_operation', 'validate_circuit', '_validate_operations') \
+                                and any(isinstance(x, ast.Attribute) and x.attr in ('mapped_circuit', 'circuit', 'mapped_op') for a_ in c.args for x in ast.walk(a_)):
+                            recurses = True
+            ok_n = refuses_nongate or recurses
+            ctx.ob('C07.a', key + ':pair-test:inside-sub-circuits', ok_n, '' if ok_n else
+                   'the gateset test accepts a CircuitOperation by looking at the operations inside it, but the pair test only sees the outer operation: a two-qubit gate on an uncoupled pair '
+                   'passes validation once wrapped in a sub-circuit that touches a third qubit', ci.mod.rel, fn.lineno)
     # GridDevice entry points funnel into _validate_operations
     gd = repo.cls('cirq_google.devices.grid_device.GridDevice')
     for mn in ('validate_operation', 'validate_circuit'):
